@@ -104,7 +104,7 @@ def strategy_(draw, tier):
     return draw(struct.histories(viewers=False, residents=True, inc_ok=False,
                                  max_ticks=6 if tier == 'quick' else 12,
                                  reject_ok=True, tuple_delete=True,
-                                 none_ok=True))
+                                 none_ok=True, replace_ok=True))
 
 
 def strategy(tier):
